@@ -17,8 +17,9 @@ func init() {
 			"non-trivial = at least one ordered pair of waiting Locked containers with distinct priorities; distinct = (#types, #waiting Locked, ties, at-quota, successful/failed starts, creates, unlocks, boot completions that fired)",
 		Assume: []string{
 			"(a) values stay below 2^50 so that neither the code's nor the oracle's int64 arithmetic overflows; prices are finite and non-negative",
-			"(a) an image reference that is not a bare portable data hash carries no size estimate (0 bytes), as in upstream's TestScratchForDockerImage",
-			"(b) Create(type) has one result per type per pass except for a monotone create budget (succeeds, then fails); an idle worker can appear during a pass only by a booting worker of the snapshot (or one created in the pass) finishing its boot",
+			"(a) the space for loading an image is the documented heuristic: (manifest size - 80)/42 full 64 MiB blocks, buffered once in the tmp space (need = max(tmp, image) + image); an image reference that is not a bare portable data hash carries no size estimate (0 bytes), as in upstream's TestScratchForDockerImage",
+			"(a) preemptibility is an equality constraint (type.Preemptible == container's scheduling_parameters.preemptible), as in upstream's TestChoosePreemptable",
+			"(b) Create(type) has one result per type per pass except for a monotone create budget (succeeds, then fails); an idle worker can appear during a pass only by a booting worker of the snapshot (or one created in the pass) finishing its boot. Outside this model (harness switch VERIF_C16_EXT=1, never part of a check): a Create that fails for a higher-priority container and succeeds later in the same pass lets a lower-priority container of the same type be started first (run_queue.go does not latch dontstart on a failed Create)",
 			"(b) containers with a lingering crunch-run process from a previous attempt are not generated (KillContainer always reports false)",
 		},
 	})
